@@ -219,6 +219,63 @@ def close(dp, dr, digits):
     return True
 
 
+def run_textfile(ctx, rng, n):
+    """the whole file against the proved model (Np/Model/TextFile.lean, theorem file_roundtrip): polynomials with natural
+    coefficients written with fmt="%d" and a one-character delimiter - the data lines must be the model's, character by
+    character, the header payload the codec's, and the model's loader must read the implementation's file back to the
+    stored coefficient columns; numpoly.loadtxt must restore the polynomial"""
+    cases, drv = [], []
+    for i in range(n):
+        shape = gen.choice(rng, [(), (), (1,), (3,), (2, 2), (1, 3), (2, 1, 2)])
+        s = gen.gen_struct(rng, shape=shape, kind="int", names=gen.gen_names(rng, 1, 3), nterms=int(rng.integers(1, 4)), maxexp=3)
+        for t in s["terms"]:
+            t[1] = [abs(int(v)) * int(gen.choice(rng, [1, 1, 7, 1000003])) for v in t[1]]
+        p = gen.materialize(s)
+        delim = gen.choice(rng, [",", " ", "\t"])
+        writer = gen.choice(rng, ["numpoly.savetxt", "numpy.savetxt"])
+        f = io.StringIO()
+        case = {"kind": "textfile", "a": s, "delimiter": delim, "writer": writer}
+        try:
+            (numpoly.savetxt if writer == "numpoly.savetxt" else numpy.savetxt)(f, p, fmt="%d", delimiter=delim)
+            text = f.getvalue()
+            f.seek(0)
+            back = numpoly.loadtxt(f, delimiter=delim)
+        except Exception as err:  # noqa: BLE001
+            ctx.fail(case, f"text round trip (fmt='%d') raised {type(err).__name__}: {str(err)[:120]}", ["textfile", "raises"])
+            continue
+        ctx.evaluations += 1
+        ctx.count("textfile")
+        if len(p.exponents) == 1 or not p.shape:
+            ctx.nontrivial_add(("tf", i))
+        lines = text.split("\n")
+        if lines and lines[-1] == "":
+            lines = lines[:-1]
+        m = re.search(r"names:([^ ]+) keys:([^ ]+) shape:([\d,]*)", lines[0]) if lines else None
+        if m is None or not lines[0].startswith("# numpoly:"):
+            ctx.fail(case, f"first line {lines[:1]!r} is not the numpoly header", ["textfile", "header"])
+            continue
+        if den_of_struct(poly_to_struct(back)) != den_of_struct(poly_to_struct(p)) or back.shape != p.shape or back.names != p.names:
+            ctx.fail(case, f"loadtxt(savetxt(p, fmt='%d')) = {back}, was {p}", ["textfile", "value"])
+            continue
+        payload = f"# {m.group(1)} {m.group(2)} {m.group(3)}"
+        cols = [[int(v) for v in numpy.asarray(c).ravel().tolist()] for c in p.coefficients]
+        cases.append((case, lines, payload, cols, p))
+        drv.append({"id": len(drv), "op": "textfile", "names": [[ord(ch) for ch in nm] for nm in p.names],
+                    "keys": [[ord(ch) for ch in str(k)] for k in p.keys], "shape": list(p.shape), "cols": cols,
+                    "delim": ord(delim), "lines": [[ord(ch) for ch in ln] for ln in [payload] + lines[1:]]})
+    for (case, lines, payload, cols, p), ans in zip(cases, run_driver(drv)):
+        model_lines = ["".join(chr(c) for c in ln) for ln in ans["lines"]]
+        if not ans["roundtrip"]:
+            raise RuntimeError(f"the Lean text-file model does not round-trip its own file: {case}")
+        if model_lines[0] != payload:
+            ctx.fail(case, f"header payload {payload!r} differs from the model's {model_lines[0]!r}", ["textfile", "header"])
+        elif model_lines[1:] != lines[1:]:
+            ctx.fail(case, f"data lines {lines[1:][:4]} differ from the model's {model_lines[1:][:4]} (one line per element, one number per stored term)",
+                     ["textfile", "layout"])
+        elif ans["loaded"] is None or ans["loaded"]["cols"] != cols or ans["loaded"]["shape"] != list(p.shape):
+            ctx.fail(case, f"the model's loader reads the written file as {ans['loaded']}, the stored columns are {cols}", ["textfile", "load"])
+
+
 def run_plain(ctx, rng, n, tmp):
     for i in range(n):
         shape = gen.choice(rng, [(3,), (2, 2), (1, 3), (4, 1), (2,)])
@@ -254,6 +311,7 @@ def run(ctx):
         run_copies(ctx, ctx.rng("copies"), 120 if q else 1500, monitor)
         run_text(ctx, ctx.rng("text"), 250 if q else 4000, monitor, tmp)
         run_plain(ctx, ctx.rng("plain"), 40 if q else 400, tmp)
+    run_textfile(ctx, ctx.rng("textfile"), 150 if q else 2500)
     ctx.extra["argument_monitor"] = {"calls": monitor.calls, "mutations": monitor.events[:5]}
     ctx.sample({"text round trip": {"shape": [], "terms": 1, "writer": "numpoly.savetxt", "target": "StringIO"},
                 "header payload": "q0 ; "})
@@ -278,6 +336,9 @@ def replay(ctx, case):
             r = pickle.loads(pickle.dumps(p, protocol=k)) if k is not None else {"copy.copy": copy.copy, "copy.deepcopy": copy.deepcopy, ".copy()": lambda q: q.copy()}[case["how"]](p)
             probs = same_exact(p, r)
             return str(probs) if probs else None
+        if case["kind"] == "textfile":
+            run_textfile(ctx, make_rng(ctx.seed, "C13/textfile"), 150)
+            return ctx.failures[n]["what"] if len(ctx.failures) > n else None
         run_text(ctx, make_rng(ctx.seed, "C13/text"), 250, Monitor(), tmp)
         run_plain(ctx, make_rng(ctx.seed, "C13/plain"), 40, tmp)
     return ctx.failures[n]["what"] if len(ctx.failures) > n else None
